@@ -103,22 +103,18 @@ def run(ctx):
         "TLC integers are 32-bit: PDU lengths >= 2^31 are treated as 'never complete'",
     ]
     vlib.build_harness(["drv_pdu"])
-    suf = "" if q else "_thorough"
 
-    # 1. theorems on the instance space
-    r = vlib.tlc(SPEC, "PS38PduInst", "MC_PS38Pdu%s.cfg" % suf, workers=4, timeout=3000, coverage=False)
-    ctx.check_model(r, "PS38Pdu theorems")
-    vlib.log("[C25] theorems model-checked on %d instances in %.1fs" % (r.distinct, r.wall_s))
-    if r.distinct < 1000:
-        raise vlib.ToolError("vacuity: instance space has only %d PDUs" % r.distinct)
-    ctx.extra_cov["instances_model_checked"] = r.distinct
-
-    # 2. cases -> real code
+    # 1+2. one TLC run over the instance space: the theorems are invariants (GTheorems =
+    # MC_PS38Pdu's ThRoundTrip/ThPrefixes/ThFraming/ThWritable; a failure is a tool error of
+    # the model) and every instance is printed as a case for the real code
     cases = ctx.path("cases.ndjson")
     gr, n = vlib.tlc_generate(SPEC, "Gen_PS38Pdu", "Gen_PS38Pdu_%s.cfg" % ("quick" if q else "thorough"), cases,
                               timeout=3000, heap="8g")
     ctx.add_tlc(gr)
-    vlib.log("[C25] %d cases generated by TLC in %.1fs" % (n, gr.wall_s))
+    vlib.log("[C25] theorems model-checked on, and %d cases generated from, %d instances in %.1fs" % (n, gr.distinct, gr.wall_s))
+    if gr.distinct < 1000:
+        raise vlib.ToolError("vacuity: instance space has only %d PDUs" % gr.distinct)
+    ctx.extra_cov["instances_model_checked"] = gr.distinct
     rep = vlib.run_driver("drv_pdu", ["replay", "--cases", cases, "--out", ctx.path("replay")], env=ctx.env())
     ctx.cov["evaluations"] += rep["cases"]
     need = {"rq", "ac", "rj", "pdata", "rrq", "rrp", "abort", "unknown", "big", "strict"}
